@@ -41,7 +41,7 @@ func (Engine) Generate(r *core.Rng, property, tier string) *core.Plan {
 		// multisig actors: addresses controlled by M of N key-holding actors
 		p.SetKnob("multi", int64(r.Range(1, 2)))
 	}
-	if property == "C33" || (property == "C34" || property == "C03") && r.Bool(0.3) || property == "C31" && r.Bool(0.5) {
+	if property == "C33" || (property == "C34" || property == "C03") && r.Bool(0.3) || property == "C31" && r.Bool(0.5) || property == "C01" && r.Bool(0.4) {
 		// side-chain withdrawals: the environment's cross-chain arbiters
 		p.SetKnob("wdarbiters", int64(r.Range(3, 6)))
 		if property == "C33" && r.Bool(0.15) {
@@ -49,7 +49,7 @@ func (Engine) Generate(r *core.Rng, property, tier string) *core.Plan {
 			// 31; only Schnorr withdrawals can name that many arbiters
 			p.SetKnob("wdarbiters", int64(r.Range(33, 36)))
 		}
-		if property == "C31" || property == "C33" && r.Bool(0.3) {
+		if property == "C31" || property == "C33" && r.Bool(0.3) || property == "C01" && r.Bool(0.5) {
 			// side-chain deposit returns (all payload versions) next to withdrawals
 			p.SetKnob("ccreturns", 1)
 		}
@@ -295,6 +295,12 @@ func (g *gen) wdTx() TxSpec {
 		case 2:
 			w.DupIn = true
 		}
+	}
+	if g.prop == "C01" && r.Bool(0.5) {
+		// value creation through another transaction type (seed C01-3): an
+		// authorised withdrawal / deposit return whose amounts wrap or exceed
+		w.Auth, w.Mixed, w.DupIn = 0, false, false
+		t.Amt = []int{1, 6, 4, 4}[r.Intn(4)]
 	}
 	if w.Ver == 0 && r.Bool(0.35) {
 		w.Typed = true
